@@ -1,5 +1,4 @@
 PROP = dict(
-    unclaimed=True,
     module="M3d.Props.C04",
     corr=dict(quick=300, thorough=2500),
     gen=[],
